@@ -51,6 +51,63 @@ func (e *Engine) CurFunc() *ast.FuncDecl {
 	return e.Func
 }
 
+// closureTarget: the call goes through a local variable that was assigned a function literal exactly once
+// (push := func(child Node) {...}) and the client wants it interpreted in place. Returns a function object and
+// declaration standing for the literal.
+func (e *Engine) closureTarget(call *ast.CallExpr) (*types.Func, *ast.FuncDecl) {
+	il, ok := e.Client.(Inliner)
+	if !ok || e.Lit != nil || len(e.frames) >= maxInlineDepth {
+		return nil, nil
+	}
+	id, ok := ast.Unparen(call.Fun).(*ast.Ident)
+	if !ok {
+		return nil, nil
+	}
+	obj, isVar := objOf(e.Info, id).(*types.Var)
+	if !isVar || obj.IsField() || obj.Pkg() == nil || obj.Parent() == obj.Pkg().Scope() || !e.P.neverReassigned(obj) {
+		return nil, nil
+	}
+	lit, ok := ast.Unparen(e.P.DefExpr(id)).(*ast.FuncLit)
+	if !ok {
+		return nil, nil
+	}
+	sig, ok := e.Info.TypeOf(lit).(*types.Signature)
+	if !ok || sig.Variadic() || sig.Params().Len() != len(call.Args) {
+		return nil, nil
+	}
+	if e.P.closureDecls == nil {
+		e.P.closureDecls = map[*ast.FuncLit]*ast.FuncDecl{}
+		e.P.closureFuncs = map[*ast.FuncLit]*types.Func{}
+	}
+	decl := e.P.closureDecls[lit]
+	if decl == nil {
+		decl = &ast.FuncDecl{Name: &ast.Ident{Name: id.Name, NamePos: lit.Pos()}, Type: lit.Type, Body: lit.Body}
+		e.P.closureDecls[lit] = decl
+		e.P.closureFuncs[lit] = types.NewFunc(lit.Pos(), obj.Pkg(), id.Name, sig)
+	}
+	for _, f := range e.frames {
+		if f.Decl == decl {
+			return nil, nil
+		}
+	}
+	// the literal must not call itself through the variable
+	self := false
+	ast.Inspect(lit.Body, func(n ast.Node) bool {
+		if c, ok := n.(*ast.CallExpr); ok && objOf(e.Info, c.Fun) == types.Object(obj) {
+			self = true
+		}
+		return !self
+	})
+	if self {
+		return nil, nil
+	}
+	fn := e.P.closureFuncs[lit]
+	if !il.Inline(e, call, fn, decl) {
+		return nil, nil
+	}
+	return fn, decl
+}
+
 // inlineTarget decides whether call is interpreted in place, and returns the callee's declaration.
 func (e *Engine) inlineTarget(call *ast.CallExpr, callee *types.Func) *ast.FuncDecl {
 	il, ok := e.Client.(Inliner)
@@ -167,9 +224,11 @@ func (e *Engine) inlineCall(call *ast.CallExpr, callee *types.Func, decl *ast.Fu
 	// parameters are bound one by one (like p := arg): the arguments are caller expressions, so a later
 	// binding cannot see an earlier parameter.
 	in = e.hookEach(in, func(st *State) *State {
+		e.bindingParams = true // a parameter lives shorter than anything the caller can name
 		for j := range lhs {
 			st = e.assignCore(st, lhs[j:j+1], rhs[j:j+1], token.DEFINE, synth, nil)
 		}
+		e.bindingParams = false
 		// named results start at their zero values
 		for _, r := range namedResults(decl) {
 			st = e.killTarget(st, r)
